@@ -325,7 +325,19 @@ func (r *Reader) newBlockReader(nextOff uint64, wantTyp byte) (br *blockReader, 
 		headerOff = uint32(headerSize(r.version))
 	}
 
-	return newBlockReader(block, headerOff, r.header.BlockSize, r.hashSize)
+	for {
+		br, err = newBlockReader(block, headerOff, r.header.BlockSize, r.hashSize)
+		if err != io.ErrUnexpectedEOF || blockTyp != blockTypeLog ||
+			nextOff+uint64(len(block)) >= r.size {
+			return br, err
+		}
+		// The compressed log block is longer than what we read
+		// (incompressible data).
+		block, err = r.getBlock(nextOff, 2*uint32(len(block)))
+		if err != nil {
+			return nil, err
+		}
+	}
 }
 
 // nextBlock moves to the next block, or returns false fi there is none.
